@@ -1,1 +1,146 @@
-// iterator history monitor (C10)
+// Iterator history monitor (C10): any sequence of next / next_back / nth / nth_back / len / clone calls is checked
+// step by step against a double-ended queue holding the reference sequence.
+
+use std::collections::VecDeque;
+use std::fmt::Debug;
+
+use crate::util::{guard, Ctx};
+
+#[derive(Clone, Copy, Debug, PartialEq, Eq)]
+pub enum Call { Next, NextBack, Nth(usize), NthBack(usize), Len, Clone }
+
+pub trait DynIter<T> {
+    fn next(&mut self) -> Option<T>;
+    fn nth(&mut self, n: usize) -> Option<T>;
+    fn next_back(&mut self) -> Option<T>;
+    fn nth_back(&mut self, n: usize) -> Option<T>;
+    fn len(&self) -> usize;
+    fn fork<'a>(&self) -> Box<dyn DynIter<T> + 'a> where Self: 'a;
+    fn double_ended(&self) -> bool;
+    fn exact(&self) -> bool;
+}
+
+// Forward-only iterator; `len_fn` is None when the type does not advertise an exact size.
+pub struct Fwd<I: Iterator + Clone> {
+    pub it: I,
+    pub len_fn: Option<fn(&I) -> usize>,
+}
+
+impl<I: Iterator + Clone> DynIter<I::Item> for Fwd<I> {
+    fn next(&mut self) -> Option<I::Item> { self.it.next() }
+    fn nth(&mut self, n: usize) -> Option<I::Item> { self.it.nth(n) }
+    fn next_back(&mut self) -> Option<I::Item> { unreachable!() }
+    fn nth_back(&mut self, _: usize) -> Option<I::Item> { unreachable!() }
+    fn len(&self) -> usize { (self.len_fn.unwrap())(&self.it) }
+    fn fork<'a>(&self) -> Box<dyn DynIter<I::Item> + 'a> where Self: 'a { Box::new(Fwd { it: self.it.clone(), len_fn: self.len_fn }) }
+    fn double_ended(&self) -> bool { false }
+    fn exact(&self) -> bool { self.len_fn.is_some() }
+}
+
+pub struct Bidi<I: DoubleEndedIterator + ExactSizeIterator + Clone> {
+    pub it: I,
+}
+
+impl<I: DoubleEndedIterator + ExactSizeIterator + Clone> DynIter<I::Item> for Bidi<I> {
+    fn next(&mut self) -> Option<I::Item> { self.it.next() }
+    fn nth(&mut self, n: usize) -> Option<I::Item> { self.it.nth(n) }
+    fn next_back(&mut self) -> Option<I::Item> { self.it.next_back() }
+    fn nth_back(&mut self, n: usize) -> Option<I::Item> { self.it.nth_back(n) }
+    fn len(&self) -> usize { self.it.len() }
+    fn fork<'a>(&self) -> Box<dyn DynIter<I::Item> + 'a> where Self: 'a { Box::new(Bidi { it: self.it.clone() }) }
+    fn double_ended(&self) -> bool { true }
+    fn exact(&self) -> bool { true }
+}
+
+pub fn fwd<'a, I: Iterator + ExactSizeIterator + Clone + 'a>(it: I) -> Box<dyn DynIter<I::Item> + 'a> {
+    Box::new(Fwd { it, len_fn: Some(|i: &I| i.len()) })
+}
+
+pub fn fwd_nolen<'a, I: Iterator + Clone + 'a>(it: I) -> Box<dyn DynIter<I::Item> + 'a> {
+    Box::new(Fwd { it, len_fn: None })
+}
+
+pub fn bidi<'a, I: DoubleEndedIterator + ExactSizeIterator + Clone + 'a>(it: I) -> Box<dyn DynIter<I::Item> + 'a> {
+    Box::new(Bidi { it })
+}
+
+// Runs one history. Returns false on a violation. `sig` prefixes the violation signature.
+pub fn run_history<'a, T: Clone + PartialEq + Debug + 'a>(ctx: &mut Ctx, sig: &str, mut it: Box<dyn DynIter<T> + 'a>, reference: &[T], calls: &[Call], what: &dyn Fn() -> String) -> bool {
+    let mut model: VecDeque<T> = reference.iter().cloned().collect();
+    let exact = it.exact();
+    let describe = |step: usize| format!("history {:?} (failed at step {}) on {}", calls, step, what());
+    for (step, call) in calls.iter().enumerate() {
+        match *call {
+            Call::Next => {
+                let want = model.pop_front();
+                if !ctx.expect_eq(&format!("{}.next", sig), || describe(step), &guard(|| it.next()), &want) { return false; }
+            },
+            Call::NextBack => {
+                let want = model.pop_back();
+                if !ctx.expect_eq(&format!("{}.next_back", sig), || describe(step), &guard(|| it.next_back()), &want) { return false; }
+            },
+            Call::Nth(k) => {
+                let want = if k >= model.len() { model.clear(); None } else { model.drain(..k); model.pop_front() };
+                if !ctx.expect_eq(&format!("{}.nth", sig), || describe(step), &guard(|| it.nth(k)), &want) { return false; }
+            },
+            Call::NthBack(k) => {
+                let want = if k >= model.len() { model.clear(); None } else { let keep = model.len() - k; model.truncate(keep); model.pop_back() };
+                if !ctx.expect_eq(&format!("{}.nth_back", sig), || describe(step), &guard(|| it.nth_back(k)), &want) { return false; }
+            },
+            Call::Len => {},
+            Call::Clone => {
+                match guard(|| it.fork()) {
+                    Ok(c) => { it = c; },
+                    Err(p) => { ctx.violation(&format!("{}.clone!panic", sig), format!("{}: {}", describe(step), p)); return false; },
+                }
+            },
+        }
+        if exact {
+            if !ctx.expect_eq(&format!("{}.len", sig), || format!("len() after step {} of {}", step, describe(step)), &guard(|| it.len()), &model.len()) { return false; }
+        }
+    }
+    // Drain what is left (nothing skipped, nothing twice), then it must stay exhausted.
+    let rest: Vec<T> = model.iter().cloned().collect();
+    let got = guard(|| {
+        let mut out = Vec::new();
+        for _ in 0..rest.len() + 2 {
+            match it.next() { Some(x) => out.push(x), None => break }
+        }
+        let mut after = 0;
+        for _ in 0..3 { if it.next().is_some() { after += 1; } }
+        (out, after)
+    });
+    ctx.expect_eq(&format!("{}.drain", sig), || format!("remaining items and Some-after-None count after {}", describe(calls.len())), &got, &(rest, 0))
+}
+
+// The 9-call alphabet for double-ended iterators and the 5 forward calls.
+pub const BIDI_ALPHABET: [Call; 9] = [Call::Next, Call::NextBack, Call::Nth(0), Call::Nth(1), Call::Nth(2), Call::NthBack(0), Call::NthBack(1), Call::NthBack(2), Call::Nth(usize::MAX)];
+pub const FWD_ALPHABET: [Call; 5] = [Call::Next, Call::Nth(0), Call::Nth(1), Call::Nth(2), Call::Nth(usize::MAX)];
+
+pub fn decode_history(alphabet: &[Call], len: usize, code: u64) -> Vec<Call> {
+    let mut out = Vec::with_capacity(len);
+    let mut c = code;
+    for _ in 0..len {
+        out.push(alphabet[(c % alphabet.len() as u64) as usize]);
+        c /= alphabet.len() as u64;
+    }
+    out
+}
+
+pub fn random_history(rng: &mut crate::util::Rng, double_ended: bool, steps: usize, total: usize) -> Vec<Call> {
+    let mut out = Vec::with_capacity(steps);
+    for _ in 0..steps {
+        let k = match rng.below(8) { 0 => 0, 1 => 1, 2 => 2, 3 => rng.below(8), 4 => rng.below(total + 2), 5 => 63 + rng.below(3), _ => rng.below(4) };
+        let c = match rng.below(if double_ended { 12 } else { 7 }) {
+            0 | 1 | 2 => Call::Next,
+            3 | 4 => Call::Nth(k),
+            5 => Call::Clone,
+            6 => if rng.chance(1, 30) { Call::Nth(usize::MAX) } else { Call::Len },
+            7 | 8 | 9 => Call::NextBack,
+            10 => Call::NthBack(k),
+            _ => if rng.chance(1, 30) { Call::NthBack(usize::MAX) } else { Call::NthBack(k % 3) },
+        };
+        out.push(c);
+    }
+    out
+}
